@@ -4,7 +4,7 @@ matching (wrong role / axis / constant => violation, unrecognised shape =>
 exit 2)."""
 import ast
 
-from ..model import (AnalysisError, FunctionInfo, expand_aug, dotted, norm_text,
+from ..model import (AnalysisError, FunctionInfo, expand_aug, fold_ifexp, dotted, norm_text,
                      names_read, const_value, is_none)
 from ..cfg import structural_guards, canon_guard
 from ..rules import roles
@@ -111,13 +111,19 @@ def _bad(node, what, *expected):
 
 def _defs(fn):
   d = {}
-  for st in ast.walk(fn.node):
-    st = expand_aug(st)
-    if isinstance(st, ast.Assign):
-      for t in st.targets:
-        nm = dotted(t)
-        if nm:
-          d.setdefault(nm, []).append(st)
+  def visit(n):
+    for st in ast.iter_child_nodes(n):
+      if isinstance(st, ast.stmt):
+        st2 = expand_aug(st)
+        if isinstance(st2, ast.Assign):
+          for t in st2.targets:
+            nm = dotted(t)
+            if nm:
+              d.setdefault(nm, []).append(st2)
+          if st2 is not st:
+            continue
+      visit(st)
+  visit(fn.node)
   return d
 
 
